@@ -30,14 +30,44 @@ def run(prop: str, tier: str, repo: str) -> int:
         report.analysed.update(ctx.base_stats())
         mod = importlib.import_module(f"sa.rules.{prop.lower()}")
         mod.run(ctx, report)
-        if tier == "thorough" and hasattr(mod, "thorough"):
-            mod.thorough(ctx, report)
+        if tier == "thorough":
+            if hasattr(mod, "thorough"):
+                mod.thorough(ctx, report)
+            checker_validation(prop, repo, report)
     except AnalysisError as exc:
         report.undecided("ENGINE", "-", "analysis completes", f"{exc}")
     except Exception as exc:  # pylint: disable=broad-except
         tb = traceback.format_exc().strip().splitlines()
         report.undecided("ENGINE", "-", "analysis completes", f"analyser raised {type(exc).__name__}: {exc} | {' / '.join(tb[-4:])}")
     return report.finish()
+
+
+def checker_validation(prop: str, repo: str, report: Report) -> None:
+    """Thorough tier: run the mutant corpus of this property (information only; never changes the verdict)."""
+    import json
+    import subprocess
+    import tempfile
+
+    if os.environ.get("VERIF_EVIDENCE_DIR"):
+        return  # we are inside a self-test run already
+    with tempfile.TemporaryDirectory(prefix="verif-cv-") as tmp:
+        out = os.path.join(tmp, "res.json")
+        try:
+            res = subprocess.run([sys.executable, os.path.join(HERE, "selftest", "run.py"), "--only", prop, "--repo", repo, "--json", out], capture_output=True, text=True, timeout=900)
+            data = json.load(open(out)) if os.path.exists(out) else []
+        except Exception as exc:  # pylint: disable=broad-except
+            report.info(f"checker validation could not run: {exc}")
+            return
+    summary = {
+        "variants": len(data),
+        "as_expected": sum(1 for r in data if r["status"] == "ok"),
+        "unexpected": [r["id"] for r in data if r["status"] == "FAIL"],
+        "stale": [r["id"] for r in data if r["status"] == "stale"],
+        "firing_variants": sum(1 for r in data if r.get("expect") == "fire"),
+        "silent_variants": sum(1 for r in data if r.get("expect") == "silent"),
+    }
+    report.extra["checker_validation"] = summary
+    report.info(f"checker validation: {summary['as_expected']}/{summary['variants']} variants behaved as recorded (fire {summary['firing_variants']}, silent {summary['silent_variants']}); unexpected: {summary['unexpected']}")
 
 
 def main() -> int:
